@@ -4,7 +4,6 @@ package cl
 
 import (
 	"fmt"
-	"io"
 	"strings"
 
 	"github.com/ohler55/slip"
@@ -86,7 +85,7 @@ func (f *Defmacro) Call(s *slip.Scope, args slip.List, depth int) (result slip.O
 				slip.CurrentPackage.Name, low, slip.CurrentPackage.Name)
 		}
 		if 0 < len(fi.Kind) {
-			w := s.Get("*error-output*").(io.Writer)
+			w := s.WriterVar("*error-output*", depth)
 			_, _ = fmt.Fprintf(w, "WARNING: redefining %s:%s in defmacro\n", slip.CurrentPackage.Name, low)
 		}
 	}
